@@ -175,7 +175,16 @@ def handle2 (op : String) (a obs : List String) : Option Verdict :=
   | "huff.dec" => do
     let b ← unhex (get a 0)
     let model := [match Huffman.decode b with | some s => s!"ok:{hex s}" | none => "err"]
-    pure (model, check [("no_trap", !isTrap obs)])
+    -- an accepted string is the code of its decoding followed by fewer than 8 padding bits: the
+    -- encoding of the decoding has the same length and differs at most in the last byte (the
+    -- library's decoder does not insist on one-bits as padding; no property asks it to)
+    let back : Bool := match (get obs 0).splitOn ":" with
+      | ["ok", h] => (match unhex (if h == "" then "-" else h) with
+          | some x => let e := Huffman.encode x
+                      e.length == b.length && e.dropLast == b.dropLast
+          | none => false)
+      | _ => true
+    pure (model, check [("no_trap", !isTrap obs), ("accepted_input_is_the_code_of_its_decoding_plus_padding", back)])
   | "req.admit" => do
     let p ← parsePairs (get a 0)
     let model := [match Session.requestTryFrom p with
